@@ -135,7 +135,8 @@ def base_env(registry: Registry) -> dict:
         "some": lambda x: x,
         "ctx_of": lambda x: x,
         "same": lambda a, b: a == b and (not isinstance(a, dict) or list(a) == list(b)),
-        "forall": _forall, "exists": _exists, "implies": _implies, "keys": lambda d: list(d.keys()),
+        "forall": _forall,
+        "forall2": lambda n, fn: all(fn(a, b) for b in range(n) for a in range(b)), "exists": _exists, "implies": _implies, "keys": lambda d: list(d.keys()),
         "iff": lambda a, b: bool(a) == bool(b),
         "strip": lambda s: s.strip(),
         "re_sub": lambda pat, repl, s: re.sub(pat, repl, s),
